@@ -274,8 +274,24 @@ def check_order_independence(cfg, hist1, hist2, probes, size, levy, entropy=55):
                 B.call(b1, a, b, cfg, levy)
             for a, b in hist2:
                 B.call(b2, a, b, cfg, levy)
+            # Each probe gets siblings: raw end points that differ from the probe's but round to the same grid interval
+            # (only with a tolerance grid).  The first object is asked probe after probe, each preceded by its sibling;
+            # the second one is asked the probes alone, in reverse order: the answer for a probe must not depend on
+            # what was asked immediately before it (nor on anything else in the history).
+            def siblings(a, b):
+                out = []
+                for da in (-1, 1):
+                    for (sa, sb) in ((a + da, b), (a, b + da)):
+                        if 0 <= sa < sb <= cfg.T and (cfg.round(sa), cfg.round(sb)) == (cfg.round(a), cfg.round(b)):
+                            out.append((sa, sb))
+                return out[:2]
+            ans1 = {}
             for a, b in probes:
-                x = B.call(b1, a, b, cfg, levy)
+                for (sa, sb) in siblings(a, b):
+                    B.call(b1, sa, sb, cfg, levy)
+                ans1[(a, b)] = B.call(b1, a, b, cfg, levy)
+            for a, b in reversed(list(probes)):
+                x = ans1[(a, b)]
                 y = B.call(b2, a, b, cfg, levy)
                 # the Levy-area approximation of a query spanning several stored pieces is a Chen
                 # combination of per-piece samples; in dyadic mode the pieces are canonical too
